@@ -670,11 +670,28 @@ def check_L7(ctx, rep):
         rep.functions.add(p)
         self_id = b['params'][0].get('id')
         fields = set()
-        for x, _ in walk(b['tree']):
+        for x, parents in walk(b['tree']):
             if x.get('k') == 'mcall' and x['m'] == b['name']:
                 r = strip(x['r'])
                 if r.get('k') == 'field' and (chain_root(r) or {}).get('id') == self_id:
                     fields.add(r['n'])
+                    # both parts are consulted unconditionally: total and delta of a partial index share keys
+                    chain_ = list(parents) + [x]
+                    cond = None
+                    for i_, q in enumerate(chain_[:-1]):
+                        nx = chain_[i_ + 1]
+                        if q.get('k') == 'if' and (nx is q['th'] or nx is q.get('el')):
+                            cond = 'if'
+                        if q.get('k') == 'match' and any(nx is a['b'] for a in q['arms']):
+                            cond = 'match arm'
+                        if q.get('k') == 'binary' and q['op'] in ('&&', '||') and nx is q['r'] and b['name'] not in ('is_empty',):
+                            cond = 'short-circuit'
+                        if q.get('k') == 'closure':
+                            cond = 'closure'
+                    if cond and b['name'] != 'is_empty':
+                        rep.viol('L7', p, 'conditional-part:' + r['n'],
+                                 'the combined view consults `%s` only conditionally (%s): entries of one part are hidden whenever the other '
+                                 'part has an entry for the same key' % (r['n'], cond), loc=cr.loc(x))
         ok = fields == {'ind1', 'ind2'}
         rep.inst('L7', '%s delegates to %s' % (p, sorted(fields)))
         if not ok:
